@@ -28,7 +28,7 @@ CHECKS = {
    note="A process crash does not change the directory, so the state checked after operation k is the state a crash after k leaves. Same engine assumptions as C04.",
    technique="runtime monitoring: invariant checked at every hooked filesystem operation (independent list parser + decoder + fresh open) under seeded schedules"),
  "C06": dict(level="fault_enumeration", design="5/C06", engine="engineA",
-   text="For every explored operation (12 kinds x 6 initial stacks x continuations) the process is killed immediately before EVERY one of its hooked filesystem operations (table-body writes included): descriptors closed, no cleanup runs. At the crash and after every earlier operation a fresh open must succeed and show exactly the last committed state (which M-commit proved to be before or after the call); a second process then continues (reads must succeed, writers may be refused only while a dead process's lock exists) and the final view must equal the model.",
+   text="For every explored operation (12 kinds x 6 initial stacks x continuations) the process is killed immediately before EVERY one of its hooked filesystem operations (table-body writes included): descriptors closed, no cleanup runs. At the crash and after every earlier operation a fresh open must succeed and show exactly the last committed state (which M-commit proved to be before or after the call); a second process then continues (reads must succeed, writers may be refused only while a dead process's lock exists) and the final view must equal the model. Continuations include a deletion of every key followed by additions of other names (a dropped tombstone resurfaces).",
    note="Process crashes only (no torn writes, no power loss - excluded by the property). Enumeration is complete per explored operation, not over all operations/stacks.",
    technique="runtime monitoring with fault injection: crash enumeration at every hooked filesystem operation along observed executions, oracle = fresh open vs. commit history"),
  "C08": dict(level="exploration", design="5/C08", engine="engineA",
@@ -44,15 +44,15 @@ CHECKS = {
    note="Same engine assumptions as C04. A Clean that fails because it races with another live process's cleanup is not counted (the property only demands release of what was taken).",
    technique="runtime monitoring: resource-ownership ledger checked at every idle point and at quiescence, with crash injection and I/O fault injection"),
  "C03": dict(level="exploration", design="5/C03",
-   text="Table sets of 1..6 tables with increasing update-index ranges over a small overlapping key alphabet (updates, deletions, re-creations, log tombstones with old update indices) are read through the raw merged view and through Stack.Merged() over hand-placed files; full scans and seeks at every key class are compared with the newest-wins overlay computed from the inputs.",
+   text="Table sets of 1..6 tables with increasing update-index ranges over a small overlapping key alphabet (updates, deletions, re-creations, log tombstones with old update indices) are read through the raw merged view and through Stack.Merged() over hand-placed files; full scans and seeks at every key class are compared with the newest-wins overlay computed from the inputs. Also: wide sets (7..30 tables); nested views (a raw view over a raw view, and over the stack view, of the older tables plus the newer tables); full scans with every block read of every table failing in turn (error or the undisturbed result, never a silently shorter one).",
    note="Trusts the generator and the overlay reference (gen/multi.go).",
    technique="runtime monitoring: reference-model oracle (newest-wins overlay) over real merged iterators on generated table sets"),
  "C07": dict(level="exploration", design="5/C07",
-   text="Model-driven single-handle histories (creates, updates, deletes, symrefs, peeled tags, log appends, log tombstones, varied table sizes) with auto-compaction, CompactAll, AutoCompact and reopen; after every call the handle's full ref+log scan must equal the reference model, a fresh handle every 5 calls. The harness tracks which tables were merged, so the evidence counts compactions of upper ranges holding a tombstone for a key that lives in a lower table.",
+   text="Model-driven single-handle histories (creates, updates, deletes, symrefs, peeled tags, log appends, log tombstones, varied table sizes) with auto-compaction, CompactAll, AutoCompact and reopen; after every call the handle's full ref+log scan must equal the reference model, a fresh handle every 5 calls. The harness tracks which tables were merged, so the evidence counts compactions of upper ranges holding a tombstone for a key that lives in a lower table. Also: the capacity-window family (records at the capacity of a block that become the first record of the compacted table) and, under the engine's commit monitor, compactions whose filesystem calls - reads of the input tables included, long log sections - fail once each: a compaction fails or commits exactly the content of its inputs.",
    note="Trusts the reference stack model (gen/txn.go). Which range gets compacted is decided by the code under test; ranges are steered only through table sizes.",
    technique="runtime monitoring: reference-model oracle over real stack histories, views compared before/after every compaction"),
  "C09": dict(level="exploration", design="5/C09",
-   text="Sequential random histories over 2..4 handles; the harness reads tables.list independently and knows which handles are stale. Stale Add/NewAddition must return ErrLockFailure, stale CompactAll/AutoCompact/Clean must leave the directory byte-identical; after a failed Add UpToDate(), NextUpdateIndex() and the immediate retry are checked.",
+   text="Sequential random histories over 2..4 handles; the harness reads tables.list independently and knows which handles are stale. Stale Add/NewAddition must return ErrLockFailure, stale CompactAll/AutoCompact/Clean must leave the directory byte-identical; after a failed Add UpToDate(), NextUpdateIndex() and the immediate retry are checked. Operations include expiry compactions and Addition left open across other handles' writes.",
    note="Sequential by construction (the property quantifies over sequential histories); interleavings are C04's.",
    technique="runtime monitoring: staleness reference model + directory snapshots around every call of real multi-handle histories"),
  "C11": dict(level="exploration", design="5/C11",
@@ -68,11 +68,11 @@ CHECKS = {
    note="Trusts the reference filter keepLog in props/c13.go.",
    technique="runtime monitoring: reference filter oracle over real CompactAll(expiry) executions at boundary values"),
  "C17": dict(level="exploration", design="5/C17",
-   text="(a) the real segment chooser is called on every size vector of length <=5 (quick) / <=6 (thorough) over 11 representative sizes and on random longer vectors and judged by the three stated conditions; (b) single-writer workloads of identical-size transactions (size equality measured from the files) are monitored after every Add: depth <= 2*log2(n), entries rewritten <= n*log2(n)*e, every successful auto-compaction strictly reduces the table count over a contiguous range. Known findings (entries bound exceeded for tiny N and for rewritten-names-with-logs workloads) are listed in known_findings.json.",
+   text="(a) the real segment chooser is called on every size vector of length <=5 (quick) / <=6 (thorough) over 11 representative sizes and on random longer vectors and judged by the three stated conditions; (b) single-writer workloads of identical-size transactions (size equality measured from the files) are monitored after every Add: depth <= 2*log2(n), entries rewritten <= n*log2(n)*e, every successful auto-compaction strictly reduces the table count over a contiguous range. Known findings (entries bound exceeded for tiny N and for rewritten-names-with-logs workloads) are listed in known_findings.json. Also: AutoCompact through a second, stale handle: whatever it does, it must not merge tables of an on-disk list in which no two adjacent tables share a class.",
    note="Chooser reached through export/zz_verif_export2.go (same unexported function the repository's own test calls); falls back to real stacks only if the wrapper does not compile.",
    technique="runtime monitoring: enumerated inputs to the real chooser judged by the stated conditions + bound monitors on Stats/table count after every Add of long real workloads"),
  "C14": dict(level="exploration", design="5/C14",
-   text="Every file emitted by the real writer in this run (generated tables of all configurations; stack additions and compactions) is decoded by an independent decoder written from the format description and compared with its source records, rule by rule (header/footer/CRC, padding, restarts, key order, every index entry at every level, object-index position lists, update-index range).",
+   text="Every file emitted by the real writer in this run (generated tables of all configurations; stack additions and compactions) is decoded by an independent decoder written from the format description and compared with its source records, rule by rule (header/footer/CRC, padding, restarts, key order, every index entry at every level, object-index position lists, update-index range). Also: record sizes swept across the capacity of a block (first / later record, first / later block, 5 block sizes).",
    note="Trusts my reading of the format (DESIGN.md appendix A) and the Go standard library zlib/crc32.",
    technique="runtime monitoring: independent format decoder as oracle over files emitted by executions of the real writer/stack"),
  "C01": dict(level="exploration", design="5/C01",
